@@ -111,6 +111,10 @@ func Hash(s string) string {
 
 var protoOut *os.File
 
+// PinMapOrder is set by the overlay binary: pins Go's map iteration start (MAPORD seam) so that
+// code under test that ranges over maps is deterministic in every check except those that vary it.
+var PinMapOrder func()
+
 // WorkerMain runs the worker loop: one JSON case per line on stdin, one
 // "\x01END <json>" line per case on the private protocol fd.
 func WorkerMain(id string) {
@@ -126,6 +130,9 @@ func WorkerMain(id string) {
 	if protoOut == nil {
 		fmt.Fprintln(os.Stderr, "no protocol fd")
 		os.Exit(3)
+	}
+	if PinMapOrder != nil {
+		PinMapOrder()
 	}
 	if wi, ok := p.(WorkerIniter); ok {
 		wi.InitWorker()
